@@ -1,4 +1,5 @@
 import DelbModel.Model.XPath.Eval
+import DelbModel.Model.XPath.Spec
 import DelbModel.Lemmas.XPathEval
 /-!
 # C06 — XPath queries select what XPath 1.0 says they select
@@ -170,5 +171,229 @@ example : evaluate (.tag 0 "" "r" [] [.tag 1 "" "a" [⟨"", "k", "1".toList⟩] 
         { axis := "child", test := .name none "a".toList,
           preds := [.binop "=" (.func "position".toList []) (.num 2)] }] }]
     = .ok [.at [0, 0], .at [2]] := by rfl
+
+/-! ## the mechanism computes the XPath 1.0 denotation
+
+`Model/XPath/Spec.lean` states what a location path means in the words of the recommendation (axes as
+relations, proximity order, predicates numbered within the current node list, composition, union), with
+the three established deviations built in.  The theorems below say that the mechanism model, whenever
+it returns, returns exactly that.
+
+Hypotheses that recur:
+* the context node is a node of the tree (`ctx ∈ docNodes root`, for paths `ctx ∈ docOrder root`);
+* `DocTypeOk s c`: step `s` does not test the root node with `text()` / `comment()` /
+  `processing-instruction()` — recorded finding `document-node-type-tests` (the `_DocumentNode` passes
+  every node type test); where it shows, mechanism and specification differ (counterexample below).
+  `stepDocTypeFree` is a check on the steps alone that implies it. -/
+
+/-- every axis generator yields the nodes related to the context node by the axis relation, in proximity
+    order (document order for forward axes, reverse document order for reverse axes) -/
+theorem c06_axis_eq_denotation (root : PTree) (axis : String) (ctx : XNode) (l : List XNode)
+    (hctx : ctx ∈ docNodes root) (h : axisNodes root axis ctx = .ok l) :
+    l = axisDenote root axis ctx ∧
+    (∀ n, n ∈ l ↔ (n ∈ docNodes root ∧ axisRel axis ctx n = true)) := by
+  have e := axisNodes_eq_denote root axis ctx l hctx h
+  subst e
+  exact ⟨rfl, mem_axisDenote root axis ctx⟩
+
+/-- a location step at one context node: the returned LIST is the denotation — the same nodes in the
+    same (proximity) order, each once -/
+theorem c06_step_eq_denotation (root : PTree) (env : NsEnv) (s : Step) (ctx : XNode) (r : List XNode)
+    (hctx : ctx ∈ docNodes root) (hd : DocTypeOk s ctx)
+    (h : evalStepAt root env s ctx = .ok r) :
+    r = stepDenote root env s ctx ∧ r.Nodup := by
+  have e := evalStepAt_eq_denote root env s ctx r hctx hd h
+  subst e
+  exact ⟨rfl, stepDenote_nodup root env s ctx⟩
+
+/-- a location step over a node set: as a SET the union of the denotations over its members, each node
+    once (the order is that of first occurrence and is not part of the denotation) -/
+theorem c06_step_set_eq_denotation (root : PTree) (env : NsEnv) (s : Step) (ns r : List XNode)
+    (hv : ∀ c ∈ ns, c ∈ docNodes root) (hd : ∀ c ∈ ns, DocTypeOk s c)
+    (h : evalStep root env s [] ns = .ok r) :
+    (∀ m, m ∈ r ↔ ∃ c ∈ ns, m ∈ stepDenote root env s c) ∧ r.Nodup := by
+  exact evalStep_eq_denote root env s ns r hv hd h
+
+/-- a location path: the result is, as a set, the denotation, and names every node once -/
+theorem c06_path_eq_denotation (root : PTree) (env : NsEnv) (ctx : List Nat) (p : Path) (r : List XNode)
+    (hctx : ctx ∈ docOrder root)
+    (hd : ∀ s c, Visits root env p.steps (pathStart ctx p) s c → DocTypeOk s c)
+    (h : evalPath root env ctx p = .ok r) :
+    (∀ n, n ∈ r ↔ n ∈ pathDenote root env ctx p) ∧ r.Nodup := by
+  exact evalPath_eq_denote root env ctx p r hctx hd h
+
+/-- membership in the denotation of a path is the existence of a chain of context nodes (§2.1) -/
+theorem c06_path_denotation_chain (root : PTree) (env : NsEnv) (ctx : List Nat) (p : Path) (n : XNode) :
+    n ∈ pathDenote root env ctx p ↔ Selects root env p.steps (pathStart ctx p) n := by
+  exact mem_pathDenote root env ctx p n
+
+/-- a whole expression: the result is, as a set, the union of the paths' denotations, names every node
+    once, does not contain the root node, and `in_document_order()` of it is the denotation's tree
+    nodes listed in document order -/
+theorem c06_expr_eq_denotation (root : PTree) (env : NsEnv) (ctx : List Nat) (x : XExpr) (r : List XNode)
+    (hctx : ctx ∈ docOrder root)
+    (hd : ∀ p ∈ x, ∀ s c, Visits root env p.steps (pathStart ctx p) s c → DocTypeOk s c)
+    (h : evaluate root env ctx x = .ok r) :
+    (∀ n, n ∈ r ↔ n ∈ exprDenote root env ctx x) ∧ r.Nodup ∧ XNode.doc ∉ r ∧
+    Nav.sortPaths (addrsOf r) = exprDenoteSorted root env ctx x := by
+  obtain ⟨hm, hn, hdoc⟩ := evaluate_eq_denote root env ctx x r hctx hd h
+  exact ⟨hm, hn, hdoc, sortPaths_eq_denoteSorted root env ctx x r hctx hm⟩
+
+/-- the same with a condition on the steps alone: no step combines `text()` / `comment()` /
+    `processing-instruction()` with an axis that can contain the root node -/
+theorem c06_expr_eq_denotation_of_free (root : PTree) (env : NsEnv) (ctx : List Nat) (x : XExpr) (r : List XNode)
+    (hctx : ctx ∈ docOrder root)
+    (hfree : ∀ p ∈ x, ∀ s ∈ p.steps, stepDocTypeFree s = true)
+    (h : evaluate root env ctx x = .ok r) :
+    (∀ n, n ∈ r ↔ n ∈ exprDenote root env ctx x) ∧ r.Nodup ∧ XNode.doc ∉ r ∧
+    Nav.sortPaths (addrsOf r) = exprDenoteSorted root env ctx x := by
+  refine c06_expr_eq_denotation root env ctx x r hctx (fun p hp s c hv => ?_) h
+  exact docTypeOk_of_free s c (hfree p hp s (visits_mem root env _ _ s c hv))
+
+/-- the denotation itself is well-formed: a step selects nodes of the document, each once, as a
+    sub-sequence of the axis; everything a path selects is a node of the document -/
+theorem c06_denotation_wf (root : PTree) (env : NsEnv) (s : Step) (c : XNode) :
+    (stepDenote root env s c).Sublist (axisDenote root s.axis c) ∧ (stepDenote root env s c).Nodup ∧
+    (∀ n ∈ stepDenote root env s c, n ∈ docNodes root) ∧
+    (∀ ss m, c ∈ docNodes root → Selects root env ss c m → m ∈ docNodes root) := by
+  exact ⟨stepDenote_sublist root env s c, stepDenote_nodup root env s c,
+    fun n hn => stepDenote_subset_docNodes root env s c n hn,
+    fun ss m hc hs => selects_subset_docNodes root env ss c m hc hs⟩
+
+/-- the auxiliary relations of the specification are what their names say: `docNodes` lists the root
+    node and the existing addresses, `docBefore` is the order of that listing, the ancestors are the
+    parent and the parent's ancestors -/
+theorem c06_spec_relations (root : PTree) :
+    (∀ p, XNode.at p ∈ docNodes root ↔ (getAtP root p).isSome) ∧ XNode.doc ∈ docNodes root ∧
+    (docNodes root).Nodup ∧
+    (∀ a b, a ∈ docNodes root → b ∈ docNodes root →
+      (docBefore a b = true ↔ ∃ l₁ l₂ l₃, docNodes root = l₁ ++ a :: l₂ ++ b :: l₃)) ∧
+    (∀ a n, isAncestorOf a n = true ↔
+      (parentOf n = some a ∨ ∃ m, parentOf n = some m ∧ isAncestorOf a m = true)) := by
+  refine ⟨fun p => ?_, doc_mem_docNodes root, docNodes_nodup root,
+    fun a b ha hb => docBefore_iff root a b ha hb, isAncestorOf_unfold⟩
+  rw [at_mem_docNodes, mem_docOrder]
+
+/-! ### when the mechanism raises
+
+`StepSafe root env s c` (Spec.lean) lists the marked situations: an axis the `_DocumentNode` does not
+offer (recorded finding `document-node-axes`), an unbound prefix in the name test
+(`XPathEvaluationError`), `processing-instruction('t')` applied to the root node, a predicate whose
+evaluation raises (recorded findings on predicate values).  Outside them nothing raises, except for the
+final assertion that the root node is not in the result (recorded finding `parent-of-root`). -/
+
+/-- a step at one context node returns outside the marked situations -/
+theorem c06_step_total (root : PTree) (env : NsEnv) (s : Step) (c : XNode) (hc : c ∈ docNodes root)
+    (hs : StepSafe root env s c) (hd : DocTypeOk s c) :
+    ∃ r, evalStepAt root env s c = .ok r := by
+  exact evalStepAt_ok root env s c hc hs hd
+
+/-- a path returns if none of the (step, context node) pairs it visits is a marked situation -/
+theorem c06_path_total (root : PTree) (env : NsEnv) (ctx : List Nat) (p : Path) (hctx : ctx ∈ docOrder root)
+    (hs : ∀ s c, Visits root env p.steps (pathStart ctx p) s c → (StepSafe root env s c ∧ DocTypeOk s c)) :
+    ∃ r, evalPath root env ctx p = .ok r := by
+  exact evalSteps_ok root env p.steps [pathStart ctx p]
+    (fun c hc => by rw [List.mem_singleton] at hc; subst hc; exact pathStart_mem_docNodes root ctx p hctx)
+    (fun c hc => by rw [List.mem_singleton] at hc; subst hc; exact hs)
+
+/-- an expression whose paths visit no marked situation returns if and only if its denotation does not
+    contain the root node -/
+theorem c06_expr_total (root : PTree) (env : NsEnv) (ctx : List Nat) (x : XExpr) (hctx : ctx ∈ docOrder root)
+    (hs : ∀ p ∈ x, ∀ s c, Visits root env p.steps (pathStart ctx p) s c → (StepSafe root env s c ∧ DocTypeOk s c)) :
+    (∃ r, evaluate root env ctx x = .ok r) ↔ XNode.doc ∉ exprDenote root env ctx x := by
+  have hpath : ∀ p ∈ x, ∃ l, evalPath root env ctx p = .ok l ∧ ∀ n, n ∈ l ↔ n ∈ pathDenote root env ctx p := by
+    intro p hp
+    obtain ⟨l, hl⟩ := c06_path_total root env ctx p hctx (hs p hp)
+    exact ⟨l, hl, (evalPath_eq_denote root env ctx p l hctx (fun s c hv => (hs p hp s c hv).2) hl).1⟩
+  constructor
+  · rintro ⟨r, hr⟩ hdoc
+    obtain ⟨hm, _, hnd⟩ := evaluate_eq_denote root env ctx x r hctx (fun p hp s c hv => (hs p hp s c hv).2) hr
+    exact hnd ((hm _).2 hdoc)
+  · intro hdoc
+    refine evalPaths_ok root env ctx [] x (fun p hp => ?_)
+    obtain ⟨l, hl, hm⟩ := hpath p hp
+    refine ⟨l, hl, fun hd => hdoc ?_⟩
+    unfold exprDenote
+    rw [List.mem_flatMap]
+    exact ⟨p, hp, (hm _).1 hd⟩
+
+/-- a check on the expression alone: relative paths from a tree node whose steps cannot reach the root
+    node (`stepAvoidsDoc`: a name test, or an axis other than ancestor / ancestor-or-self / parent), with
+    existing axes, bound prefixes and predicates that have values, always return — and then
+    `c06_expr_eq_denotation` applies (its hypothesis holds as well) -/
+theorem c06_expr_total_tree_paths (root : PTree) (env : NsEnv) (ctx : List Nat) (x : XExpr)
+    (hctx : ctx ∈ docOrder root)
+    (hrel : ∀ p ∈ x, p.absolute = false)
+    (hsteps : ∀ p ∈ x, ∀ s ∈ p.steps, s.axis ∈ realAxes ∧ stepAvoidsDoc s = true ∧
+      checkPrefix env (testPrefix s.test) = .ok () ∧
+      ∀ pred ∈ s.preds, ∀ cx, ∃ v, evalExpr root env cx pred = .ok v) :
+    (∃ r, evaluate root env ctx x = .ok r) ∧
+    (∀ p ∈ x, ∀ s c, Visits root env p.steps (pathStart ctx p) s c → DocTypeOk s c) := by
+  have hstart : ∀ p ∈ x, pathStart ctx p ≠ XNode.doc := by
+    intro p hp
+    simp [pathStart, hrel p hp]
+  have hsafe : ∀ p ∈ x, ∀ s c, Visits root env p.steps (pathStart ctx p) s c →
+      (StepSafe root env s c ∧ DocTypeOk s c) := by
+    intro p hp s c hv
+    have hs := hsteps p hp s (visits_mem root env _ _ s c hv)
+    exact stepSafe_of_avoidsDoc root env s c
+      (visits_ne_doc root env p.steps _ s c (hstart p hp) (fun s' hs' => (hsteps p hp s' hs').2.1) hv)
+      hs.1 hs.2.1 hs.2.2.1 hs.2.2.2
+  refine ⟨(c06_expr_total root env ctx x hctx hsafe).2 (fun hdoc => ?_), fun p hp s c hv => (hsafe p hp s c hv).2⟩
+  obtain ⟨p, hp, hsel⟩ := (mem_exprDenote root env ctx x _).1 hdoc
+  exact selects_ne_doc root env p.steps _ _ (hstart p hp) (fun s' hs' => (hsteps p hp s' hs').2.1) hsel rfl
+
+/-! ### the denotation and the mechanism on a concrete tree
+
+`<r><a k="1"/><!----><a/><b/><a k="2">t</a></r>`, no namespaces -/
+
+private def exTree : PTree :=
+  .tag 0 "" "r" [] [.tag 1 "" "a" [⟨"", "k", "1".toList⟩] [], .comment 2 [], .tag 3 "" "a" [] [],
+                    .tag 4 "" "b" [] [], .tag 5 "" "a" [⟨"", "k", "2".toList⟩] [.text 6 "t".toList]]
+private def exEnv : NsEnv := [("", "")]
+private def posEq (k : Nat) : Expr := .binop "=" (.func "position".toList []) (.num k)
+
+/-- `preceding-sibling::*[1]` from `<b/>`: a reverse axis numbers from the context node backwards -/
+private def exRev : Path :=
+  { absolute := false, steps := [{ axis := "preceding_sibling", test := .anyName none, preds := [posEq 1] }] }
+example : axisDenote exTree "preceding_sibling" (.at [3]) = [.at [2], .at [1], .at [0]] := by rfl
+example : pathDenote exTree exEnv [3] exRev = [.at [2]] := by rfl
+example : evalPath exTree exEnv [3] exRev = .ok [.at [2]] := by rfl
+
+/-- `a[@k][2]` from the root: the second predicate counts among the survivors of the first -/
+private def exStack : Path :=
+  { absolute := false, steps := [{ axis := "child", test := .name none "a".toList,
+                                   preds := [.hasAttr none "k".toList, posEq 2] }] }
+example : pathDenote exTree exEnv [] exStack = [.at [4]] := by rfl
+example : evalPath exTree exEnv [] exStack = .ok [.at [4]] := by rfl
+
+/-- `a | //*[@k]` from the root: a union with overlap — the denotation names `a[1]`, `a[3]` twice (it is
+    read as a set), the mechanism once -/
+private def exUnion : XExpr :=
+  [{ absolute := false, steps := [{ axis := "child", test := .name none "a".toList, preds := [] }] },
+   { absolute := true, steps := [{ axis := "descendant_or_self", test := .type "TagNode", preds := [] },
+                                 { axis := "child", test := .anyName none, preds := [.hasAttr none "k".toList] }] }]
+example : exprDenote exTree exEnv [] exUnion = [.at [0], .at [2], .at [4], .at [0], .at [4]] := by rfl
+example : evaluate exTree exEnv [] exUnion = .ok [.at [0], .at [2], .at [4]] := by rfl
+example : ∀ n ∈ docNodes exTree, (n ∈ [XNode.at [0], .at [2], .at [4]] ↔ n ∈ exprDenote exTree exEnv [] exUnion) := by
+  decide
+example : exprDenoteSorted exTree exEnv [] exUnion = [[0], [2], [4]] := by rfl
+/-- the hypotheses of `c06_expr_eq_denotation_of_free` are met here -/
+example : (∀ n, n ∈ [XNode.at [0], .at [2], .at [4]] ↔ n ∈ exprDenote exTree exEnv [] exUnion) ∧
+    Nav.sortPaths (addrsOf [XNode.at [0], .at [2], .at [4]]) = exprDenoteSorted exTree exEnv [] exUnion :=
+  have h := c06_expr_eq_denotation_of_free exTree exEnv [] exUnion _ (by decide) (by decide) rfl
+  ⟨h.1, h.2.2.2⟩
+
+/-- where `DocTypeOk` fails (recorded finding `document-node-type-tests`): `parent::comment()/*` from the
+    root element.  XPath 1.0: the parent of the root element is the root node, which is not a comment —
+    nothing is selected; the mechanism lets the `_DocumentNode` pass and selects the root element. -/
+private def exDocType : Path :=
+  { absolute := false, steps := [{ axis := "parent", test := .type "CommentNode", preds := [] },
+                                 { axis := "child", test := .anyName none, preds := [] }] }
+example : pathDenote exTree exEnv [] exDocType = [] := by rfl
+example : evalPath exTree exEnv [] exDocType = .ok [.at []] := by rfl
+example : ¬ DocTypeOk { axis := "parent", test := .type "CommentNode", preds := [] } (.at []) := by
+  intro h
+  exact absurd (h "CommentNode" rfl (by decide)) (by decide)
 
 end Delb.XPath
